@@ -105,7 +105,8 @@ FIDELITY = dict(sub="fidelity", mode="fidelity", family="fidelity", shards=q(4, 
 
 
 def c07(prop, tier, res, replay=None):
-    return pure.check_cases(prop, tier, res, [FIDELITY, LIMITS], [
+    return pure.check_cases(prop, tier, res, [FIDELITY, LIMITS, DRUN], [
+        "push fidelity through the real PushDispatcher (micro-batches, concurrency 1-4): every send recorded by the scripted deliverer must carry exactly the headers and the payload the message was stored with",
         "payload identity through the store is exercised, not proved: the SQLite BLOB / JSON string-map round trip is the storage engine's (trusted base); what is proved is the base64 round trip for every byte string and the header copy rules",
         "requests are handed to the real ingress handler as http.Request values: net/http's own wire parsing of headers (canonicalisation, token validation) is trusted; header names are HTTP tokens, values arbitrary UTF-8",
         "consumers: real pull HTTP handler (JSON/base64 decoded by the Lean decoder), real worker gRPC handler, real HTTPDeliverer against an httptest target; memory and SQLite (with restart); one redelivery after nack"], replay)
